@@ -637,6 +637,14 @@ class Context:
         """A model of path condition + bad, preferring replayable ones: margins on
         exponent comparisons and moderate input magnitudes first."""
         tries = []
+        scales = self.__dict__.get('exp_scales') or {}
+        if scales and len(scales) <= 12:
+            # exponent scale variables stand for powers of two: a model in which they ARE powers
+            # of two (2^-8 .. 2^8) describes the float run exactly, without margins
+            p2 = [Or.make([Cmp.make(E.n - Poly.const(Fraction(2) ** k), '==') for k in range(-8, 9)])
+                  for E in scales.values()]
+            tries.append(p2 + self._nice(span=64))
+            tries.append(p2)
         if self.robust:
             tries.append(self.robust + self._nice(span=8))
             tries.append(self.robust + self._nice())
@@ -1073,7 +1081,15 @@ class ConcreteContext:
     def is_zero(self, a):
         return float(a) == 0.0
 
+    @staticmethod
+    def _ints(a, b):
+        import numpy as np
+        ok = lambda x: isinstance(x, (int, np.integer)) and not isinstance(x, (bool, np.bool_))
+        return ok(a) and ok(b)
+
     def le(self, a, b):
+        if self._ints(a, b):
+            return int(a) <= int(b)            # (integers carry no rounding: compared exactly, strictness included)
         a = float(a)
         b = float(b)
         if a != a or b != b:
@@ -1081,13 +1097,15 @@ class ConcreteContext:
         return a <= b + self._tol(a, b)
 
     def lt(self, a, b):
+        if self._ints(a, b):
+            return int(a) < int(b)
         return self.le(a, b)
 
     def ge(self, a, b):
         return self.le(b, a)
 
     def gt(self, a, b):
-        return self.le(b, a)
+        return self.lt(b, a)
 
     def all_eq(self, A, B):
         import numpy as np
